@@ -76,7 +76,12 @@ class BasePlaceholderTransformation(ValueTransformation, PlaceholderIncludeExclu
         else it passes the placeholder back to caller.
         """
         if self.is_handled_placeholder(p):
-            yield from self.placeholder_replacements(p)
+            replacements = list(self.placeholder_replacements(p))
+            if len(replacements) == 0:
+                # The alternatives are OR-linked: without any the value would vanish and the
+                # detection item end up as a test for null.
+                raise SigmaValueError(f"No replacement values for placeholder '{ p.name }'.")
+            yield from replacements
         else:
             yield p
 
